@@ -39,7 +39,7 @@ func c16Histories(quick bool) [][]SeqOp {
 	upd := func(n int) []SeqOp {
 		h := []SeqOp{
 			op(0, z(L(0, 30, 30, 0, 90, 0, 1))),
-			op(0, withF(z(L(0, 30, 30, 0, 120, 0, 1)), 0x02)), // update of an existing hold
+			op(0, withF(z(L(0, 30, 30, 0, 120, 0, 1)), 0x02)),                       // update of an existing hold
 			op(0, withF(withEF(L(0, 31, 31, 0, 3, 0, 0), efZeroAof|fMinute), 0x02)), // update flag on a fresh key, minute lease
 			tick(3 * sec),
 		}
